@@ -75,6 +75,27 @@ impl Exec {
     pub fn begin_op(&mut self, op: u32) {
         simos::with_ctx(|c| c.io.begin_op(op));
     }
+    /// Runs `f` - another case of the same property - ahead of the case proper, on the same thread and in the same
+    /// process: no fault is injected, nothing it reports is kept, and the simulated disk is wiped afterwards. What the
+    /// code under test remembers from it (thread-local scratch space, process-wide caches, counters) is still
+    /// there when the case proper runs, which must not notice.
+    pub fn prelude(&mut self, f: impl FnOnce(&mut Exec)) {
+        simos::with_ctx(|c| c.io.quiet = true);
+        let mut scratch = Exec { disk: self.disk.clone(), counters: BTreeMap::new(), violations: vec![], nontrivial: false, notes: vec![] };
+        let r = catch_unwind(AssertUnwindSafe(|| f(&mut scratch)));
+        simos::with_ctx(|c| {
+            c.io.quiet = false;
+            c.io.begin_op(0);
+        });
+        clean_dir(&self.disk);
+        // chrono re-reads TZ once its cached zone is a (simulated) second old: a zone the sibling switched to for its
+        // read-back must not outlive it
+        self.jump_clock(2);
+        self.count("probe.sibling_case_first");
+        if let Err(p) = r {
+            std::panic::resume_unwind(p);
+        }
+    }
     pub fn api(&mut self, name: &str, outcome: &str) {
         // error texts may quote paths on the sim disk, which contain the process id and the worker number
         let scrubbed = outcome.replace(&self.disk, "<disk>");
@@ -155,6 +176,11 @@ pub trait Prop: Sync + Send + Copy + 'static {
         Vec::new()
     }
     /// a compact, human-readable rendering of a case for the evidence file
+    /// Another case of the property to execute ahead of `case` in the same run (see Exec::prelude); a pure function
+    /// of `case`.
+    fn sibling(&self, _case: &Self::Case) -> Option<Self::Case> {
+        None
+    }
     fn sample(&self, case: &Self::Case) -> Value {
         serde_json::to_value(case).unwrap_or(Value::Null)
     }
@@ -235,7 +261,12 @@ pub fn run_case<P: Prop>(prop: &P, case: &P::Case, disk: &str, want_events: bool
         .spawn(move || {
             simos::set_abort_flag(std::sync::Arc::as_ptr(&aborted_c));
             simos::install(&mut *ctx as *mut SimCtx);
-            let r = catch_unwind(AssertUnwindSafe(|| prop_c.exec(&case_c, &mut x)));
+            let r = catch_unwind(AssertUnwindSafe(|| {
+                if let Some(s) = prop_c.sibling(&case_c) {
+                    x.prelude(|xq| prop_c.exec(&s, xq));
+                }
+                prop_c.exec(&case_c, &mut x)
+            }));
             let msg = if r.is_err() { simos::with_ctx(|c| c.panic_msg.take()).flatten().or(Some("panic".into())) } else { None };
             simos::uninstall();
             let _ = tx.send((x, ctx, msg));
